@@ -220,3 +220,102 @@ void dom_pline(void) {
         emit2(line);
     }
 }
+
+/* ---- C02 / C03 through the public API: inside a handler, SCPI_IsCmd(ctx, text) tests a header text against the pattern of
+ * the MATCHED entry, SCPI_Match(pattern, text, len) any pattern against any text (script ops iC / iM, token V<0|1>).
+ * Texts: valid spellings of the entry's own pattern, of other entries' patterns, and near misses. */
+static size_t spell2(char *out, const char *pattern, int damage) {
+    const char *p = pattern; size_t k = 0; int skip = 0;
+    while (*p) {
+        if (*p == '[') { skip = h_chance(50); p++; continue; }
+        if (*p == ']') { skip = 0; p++; continue; }
+        if (skip) { p++; continue; }
+        if (*p == '#') { if (h_chance(60)) k += (size_t) sprintf(out + k, "%u", h_below(h_chance(80) ? 10 : 70000)); p++; continue; }
+        if (islower((unsigned char) *p)) {
+            int drop = h_chance(50);
+            while (islower((unsigned char) *p)) { if (!drop) out[k++] = h_chance(50) ? (char) toupper((unsigned char) *p) : *p; p++; }
+            continue;
+        }
+        out[k++] = h_chance(50) ? (char) tolower((unsigned char) *p) : *p; p++;
+    }
+    if (damage && k) {
+        unsigned kind = h_below(5), at = h_below((unsigned) k);
+        if (kind == 0) { memmove(out + at, out + at + 1, k - at - 1); k--; }
+        else if (kind == 1) { memmove(out + at + 1, out + at, k - at); out[at] = "AZ:?*19"[h_below(7)]; k++; }
+        else if (kind == 2) out[at] = "AZ:?*19x"[h_below(8)];
+        else if (kind == 3) { memmove(out + 1, out, k); out[0] = ':'; k++; }
+        else out[k++] = '?';
+    }
+    out[k] = 0;
+    return k;
+}
+
+void dir_p02b(void) {
+    static const char *pats[] = { "SYSTem:ERRor[:NEXT]?", "SYSTem:ERRor:COUNt?", "[:MEASure]:VOLTage:DC?", "[:MEASure]:VOLTage#:AC?", "OUTPut#:FREQuency#",
+        "*IDN?", "*RST", "TEST:A", "TEST:A:B", "TEST[:A]:C", "TEST:CHANnel#[:SUB#]", "VOLT", "OUTPut:STATe", "OUTPut:STATe?", "A", "B?", "CONFigure:CHANnel[:STATe]" };
+    const unsigned NP = sizeof pats / sizeof pats[0];
+    unsigned long n = h_thorough ? 10000 : 1500;
+    static char line[30000], table[20000], stream[600], scripts[8][1200];
+    for (; n; n--) {
+        ent_t e[8]; int ne = 3 + (int) h_below(5), i, units = 1 + (int) h_below(3); size_t k, sl = 0; char tmp[128], hx[300];
+        for (i = 0; i < ne; i++) {
+            size_t sk = (size_t) sprintf(scripts[i], "iT"); int tests = 1 + (int) h_below(3), t;
+            e[i].pattern = pats[h_below(NP)];
+            for (t = 0; t < tests; t++) {
+                const char *src = h_chance(60) ? e[i].pattern : pats[h_below(NP)];
+                size_t l = spell2(tmp, src, h_chance(25)); hexs(hx, tmp, l);
+                if (h_chance(70)) sk += (size_t) sprintf(scripts[i] + sk, "/iC,%s", hx);
+                else { char hp[300]; const char *pp = pats[h_below(NP)]; hexs(hp, pp, strlen(pp)); sk += (size_t) sprintf(scripts[i] + sk, "/iM,%s,%s", hp, hx); }
+            }
+            e[i].script = scripts[i];
+        }
+        table_of(table, e, ne);
+        for (i = 0; i < units; i++) {
+            size_t l = spell2(tmp, e[h_below((unsigned) ne)].pattern, 0);
+            sl += (size_t) sprintf(stream + sl, "%s%s%s", i ? ";" : "", ((i || h_chance(40)) && tmp[0] != '*') ? ":" : "", tmp); (void) l;
+        }
+        stream[sl++] = '\n';
+        k = (size_t) sprintf(line, "P 256 8 %s", table);
+        k += chunks_of(line + k, stream, sl);
+        emit2(line);
+    }
+}
+
+/* ---- C09: the consumed bytes are removed from the buffer and the rest moved to the front.  A's call also carries the
+ * beginning of the next message; that message is completed later (more bytes and a terminator, or a zero-length call).
+ * It must behave as on a fresh context that received the same bytes: nothing of A that still lies behind the moved
+ * bytes may be read as part of it (numbers glued to stale digits, strings running into stale quotes). */
+void dir_p09b(void) {
+    static const ent_t pool[] = { {"I32", "pI,32,1,1"}, {"U64", "pI,64,0,1"}, {"DBL", "pF,1,1"}, {"NUM", "pN,1"}, {"ECHO?", "pI,32,1,1/rI,32,1,7,10"}, {"TXT", "pT,1,16"},
+                                  {"NOP", "iT"}, {"Q1?", "rI,32,1,1,10"}, {"BLK", "pK,1"}, {"CHR", "pH,1"}, {"HEX", "pI,32,0,1"} };
+    static const char *numcmd[] = { "I32", "U64", "DBL", "NUM", "ECHO?", "HEX" };
+    unsigned long n = h_thorough ? 8000 : 1200;
+    static char line[9000], table[2000], a[600], b[200];
+    table_of(table, pool, (int)(sizeof pool / sizeof pool[0]));
+    for (; n; n--) {
+        size_t al = 0, k, bl = 0; int msgs = 1 + (int) h_below(2), m; unsigned shape = h_below(4), tail = h_below(6);
+        for (m = 0; m < msgs; m++) {
+            unsigned kind = h_below(4);
+            if (kind == 0) al += (size_t) sprintf(a + al, "%s %u%s%u\n", numcmd[h_below(5)], h_below(100000), h_chance(40) ? "." : "", h_below(100000));
+            else if (kind == 1) al += (size_t) sprintf(a + al, "HEX #H%X%X\r\n", h_below(65536), h_below(65536));
+            else if (kind == 2) al += (size_t) sprintf(a + al, "TXT \"%u\"\"%u\"\n", h_below(1000), h_below(1000));
+            else al += (size_t) sprintf(a + al, "DBL %u.%ue%u\n", h_below(1000), h_below(1000), h_below(20));
+        }
+        /* the beginning of the next message, unterminated, in the same call */
+        if (tail == 0) al += (size_t) sprintf(a + al, "HEX #H%X", h_below(256));
+        else if (tail == 1) al += (size_t) sprintf(a + al, "DBL %u", h_below(100));
+        else if (tail == 2) al += (size_t) sprintf(a + al, "TXT \"ab");
+        else if (tail == 3) al += (size_t) sprintf(a + al, "NUM %u.", h_below(10));
+        else al += (size_t) sprintf(a + al, "%s %s%u", numcmd[h_below(5)], h_chance(20) ? "-" : "", h_below(1000));
+        k = (size_t) sprintf(line, "P9 %d %d %s ", 256, 4 + (int) h_below(8), table);
+        k += hexs(line + k, a, al);
+        k += (size_t) sprintf(line + k, " |");
+        /* completion: a zero-length call; more bytes and a terminator; more bytes then a zero-length call */
+        if (tail == 2) bl = (size_t) sprintf(b, "c\"");
+        else if (shape >= 2 && tail != 0) bl = (size_t) sprintf(b, "%u", h_below(100));
+        if (shape == 0 && tail != 2) k += (size_t) sprintf(line + k, " -");
+        else if (shape == 1 || shape == 2 || tail == 2) { bl += (size_t) sprintf(b + bl, "\n"); k += chunks_of(line + k, b, bl); }
+        else { if (bl) k += chunks_of(line + k, b, bl); k += (size_t) sprintf(line + k, " -"); }
+        emit2(line);
+    }
+}
